@@ -421,6 +421,22 @@ func runMyRawClient(conn net.Conn, script []Stmt, results []StmtResult, o myRawO
 	for i, st := range script {
 		res := &results[i]
 		clientIdles(st.IdleBefore)
+		for _, pre := range st.Pre {
+			var pr StmtResult
+			if err := c.command(0x03, []byte(pre)); err != nil {
+				return fmt.Errorf("statement %d: %w", i, err)
+			}
+			if err := c.readResult(&pr, false, o); err != nil {
+				return fmt.Errorf("statement %d (%q): %w", i, pre, err)
+			}
+			if pr.Err != "" {
+				res.Err, res.ErrCode, res.Ready = pr.Err, pr.ErrCode, true
+				break
+			}
+		}
+		if res.Err != "" {
+			continue
+		}
 		if !st.Extended {
 			if err := c.command(0x03, []byte(st.SQL)); err != nil {
 				return fmt.Errorf("statement %d: %w", i, err)
